@@ -1,7 +1,16 @@
-"""Shared extraction of wire-grammar terms from reader bodies (used by C01 and C12)."""
+"""Shared extraction of wire-grammar terms from reader bodies (used by C01 and C12).
+
+A grammar item is one read on the reader, in reverse post-order, with endianness, canonical arguments, the
+iteration domains of the enclosing loops and the data guards that dominate it. Calls to the project's own
+reader *non-terminals* (read_tx, read_block_header, …) stay as items; calls to any OTHER crate-local helper
+that takes the reader are flattened in place (its items are spliced in with parameters substituted and call
+sites tagged), so extracting or inlining a helper function does not change the extracted grammar."""
 import mir
 import util
 from mir import canon, peel
+
+NON_TERMINALS = {'read_block', 'read_block_header', 'read_tx', 'read_txs', 'read_tx_inputs', 'read_tx_outputs',
+                 'read_tx_outpoint', 'read_256hash', 'read_u8_vec', 'read_merkle_branch', 'read_aux_pow_extension'}
 
 
 def is_read(cs):
@@ -9,24 +18,90 @@ def is_read(cs):
     return (m.startswith('read_') and m != 'read_exact') or (m == 'read_from' and 'VarUint' in cs.name)
 
 
-def grammar(body):
-    """list of grammar items for a reader body:
-       (label, primitive, endianness|None, [canonical args after self], [loop bounds outermost first], [data guards])"""
-    reads, labels = util.read_sequence(body, is_read)
-    items = []
+def helper_target(prog, cs):
+    """crate-local reader helper that is not one of the grammar's own non-terminals"""
+    if prog is None or not cs.local:
+        return None
+    m = mir.method_name(cs.name)
+    if m in NON_TERMINALS or (m == 'read_from' and 'VarUint' in cs.name):
+        return None
+    tg = prog.targets(cs)
+    if len(tg) != 1 or tg[0].kind == 'Closure':
+        return None
+    return tg[0]
+
+
+def _collect(prog, body, xf, outer_loops, outer_guards, depth, helpers):
+    """items of `body` as dicts with expression-valued fields; xf transforms body-local expressions into
+    the outermost caller's frame"""
+    reads, _ = util.read_sequence(body, is_read)
+    out = []
     for cs in reads:
-        args = [canon(body.op_expr(a), labels=labels) for a in cs.args]
-        recv = args[0] if args else None
-        lb = [canon(x, labels=labels) if x else '?' for x in util.loop_bounds(body, cs.bb)]
-        end = [x.split('::')[-1] for x in cs.gargs if 'Endian' in x]
-        g = []
+        loops = list(outer_loops) + [xf(x) if x is not None else None for x in util.loop_bounds(body, cs.bb)]
+        guards = list(outer_guards)
         for r in util.facts_to_rels(body.facts_at(cs.bb)):
-            c = util_crel_l(r, labels)
+            guards.append(tuple(xf(x) if isinstance(x, tuple) and x and isinstance(x[0], str) and x[0] in mir._KINDS else x for x in r))
+        tgt = helper_target(prog, cs)
+        call_e = xf(body.call_expr(cs))
+        if tgt is not None and depth < 3:
+            helpers.add(tgt.path)
+            mapping = {i + 1: xf(body.op_expr(a)) for i, a in enumerate(cs.args)}
+            site = call_e[3]
+
+            def xf2(e, mapping=mapping, site=site, tgt=tgt):
+                return mir.tag_sites(mir.subst(e, mapping), site, tgt.path)
+            out.extend(_collect(prog, tgt, xf2, loops, guards, depth + 1, helpers))
+            continue
+        end = [x.split('::')[-1] for x in cs.gargs if 'Endian' in x]
+        out.append(dict(site=call_e[3], name=mir.method_name(cs.name), endian=end[0] if end else None,
+                        args=[xf(body.op_expr(a)) for a in cs.args], loops=loops, guards=guards, cs=cs))
+    return out
+
+
+def grammar(body, prog=None):
+    """list of grammar items for a reader body:
+       (label, primitive, endianness|None, receiver, [canonical args after the receiver], [loop bounds outermost
+        first], [data guards], callsite) and the label table (site -> label)"""
+    prog = prog or body.prog
+    helpers = set()
+    raw = _collect(prog, body, lambda e: e, [], [], 0, helpers)
+    labels = {it['site']: str(i) for i, it in enumerate(raw)}
+
+    def fin(e):
+        return prog.inline_only(e, helpers) if helpers else e
+    items = []
+    for it in raw:
+        args = [canon(fin(a), labels=labels) for a in it['args']]
+        lb = [canon(fin(x), labels=labels) if x is not None else '?' for x in it['loops']]
+        g = []
+        for r in it['guards']:
+            r2 = tuple(fin(x) if isinstance(x, tuple) and x and isinstance(x[0], str) and x[0] in mir._KINDS else x for x in r)
+            c = util_crel_l(r2, labels)
             if c.startswith('branch(') or 'next(' in c:
                 continue
-            g.append(c)
-        items.append((labels[cs.site], mir.method_name(cs.name), end[0] if end else None, recv, args[1:], lb, sorted(g), cs))
+            if c not in g:
+                g.append(c)
+        items.append((labels[it['site']], it['name'], it['endian'], args[0] if args else None, args[1:], lb, sorted(g), it['cs']))
+    grammar.last_helpers = helpers
     return items, labels
+
+
+def ret_canon(body, labels, prog=None):
+    """canonical return expression of a reader body with the same labels and helper flattening as grammar()"""
+    prog = prog or body.prog
+    helpers = getattr(grammar, 'last_helpers', set())
+    e = body.ret_expr()
+    if helpers:
+        e = prog.inline_only(e, helpers)
+    return canon(e, labels=labels)
+
+
+def expr_canon(body, e, labels, prog=None):
+    prog = prog or body.prog
+    helpers = getattr(grammar, 'last_helpers', set())
+    if helpers:
+        e = prog.inline_only(e, helpers)
+    return canon(e, labels=labels)
 
 
 def util_crel_l(r, labels):
